@@ -1,0 +1,115 @@
+//go:build verif
+
+package openapi3filter
+
+// Contracts for the validation middleware (C14). Comment-only; read by /verif/engine (govc).
+// Ghost client state (cliHdr, cliCode, cliBody) is declared in /verif/contracts/trusted/http.spec.
+
+//@ ghost var handlerCalls int
+//@ ghost var hStrictStatus int
+//@ ghost var hStrictWritten bool
+//@ ghost var hStrictBody seqbyte
+//@ ghost var errCalls int
+//@ ghost var lastErrStatus int
+//@ ghost var lastErrCode int
+//@ ghost var errPreHdr map[ref]bool
+//@ ghost var errPreCode map[ref]int
+//@ ghost var errPreBody map[ref]seqbyte
+//@ ghost var errPostHdr map[ref]bool
+//@ ghost var errPostCode map[ref]int
+//@ ghost var errPostBody map[ref]seqbyte
+//@ ghost var reqOK bool
+//@ ghost var respOK bool
+
+// ---- user callbacks (assumed; A3) ----
+
+// The wrapped handler: runs once per call; it reaches the client only through the writer it is
+// given. For the strict wrapper every method leaves the client state unchanged (proved below),
+// hence so does the handler; what it wrote is recorded in hStrict*.
+//@ iface (http.Handler).ServeHTTP (self, w, r)
+//@   modifies *
+//@   modifies handlerCalls, hStrictStatus, hStrictWritten, hStrictBody, cliHdr, cliCode, cliBody
+//@   ensures handlerCalls == old(handlerCalls) + 1
+//@   ensures typeof(w) == type *strictResponseWrapper ==> unchanged(cliHdr, cliCode, cliBody)
+//@   ensures typeof(w) == type *strictResponseWrapper ==> w.(*strictResponseWrapper).w == old(w.(*strictResponseWrapper).w)
+//@   ensures typeof(w) == type *strictResponseWrapper ==> hStrictStatus == w.(*strictResponseWrapper).status && hStrictWritten == w.(*strictResponseWrapper).headerWritten && hStrictBody == bufContent(emb(w.(*strictResponseWrapper), body))
+//@   ensures typeof(w) == type *strictResponseWrapper ==> strictInv(w.(*strictResponseWrapper))
+
+// Representation invariant of the strict wrapper, preserved by each of its methods (proved):
+// a recorded header implies a status that net/http accepts whenever the handler only passes
+// valid codes (requires of WriteHeader).
+//@ spec strictInv(wr *strictResponseWrapper) bool := wr.headerWritten ==> (100 <= wr.status && wr.status <= 999)
+
+//@ fnfield ErrFunc (ctx, w, status, code, err)
+//@   modifies *
+//@   modifies errCalls, lastErrStatus, lastErrCode, errPreHdr, errPreCode, errPreBody, errPostHdr, errPostCode, errPostBody, cliHdr, cliCode, cliBody
+//@   ensures errCalls == old(errCalls) + 1 && lastErrStatus == status && lastErrCode == code
+//@   ensures errPreHdr == old(cliHdr) && errPreCode == old(cliCode) && errPreBody == old(cliBody)
+//@   ensures errPostHdr == cliHdr && errPostCode == cliCode && errPostBody == cliBody
+
+//@ fnfield LogFunc (ctx, message, err)
+//@   modifies *
+
+// ---- request/response validation as seen by the middleware: verdict recorded, nothing assumed ----
+//@ func ValidateRequest
+//@   modifies *
+//@   records reqOK := (result == nil)
+//@ func ValidateResponse
+//@   modifies *
+//@   records respOK := (result == nil)
+
+// ---- strict wrapper ----
+
+// The ghost client state describes the server's own ResponseWriter; the proof covers a wrapped
+// writer that is not itself one of this package's wrappers (nested validators are outside it).
+//@ spec external(w http.ResponseWriter) bool := w != nil && typeof(w) != type *strictResponseWrapper && typeof(w) != type *warnResponseWrapper
+
+//@ func (*strictResponseWrapper).WriteHeader
+//@   requires wr != nil
+//@   requires 100 <= status && status <= 999
+//@   requires strictInv(wr)
+//@   modifies wr.status, wr.headerWritten
+//@   ensures unchanged(cliHdr, cliCode, cliBody)
+//@   ensures wr.headerWritten && wr.status == (old(wr.headerWritten) ? old(wr.status) : status)
+//@   ensures strictInv(wr)
+//@   tag C14
+
+//@ func (*strictResponseWrapper).Write
+//@   requires wr != nil
+//@   requires strictInv(wr)
+//@   modifies wr.status, wr.headerWritten, wr.body.*
+//@   ensures unchanged(cliHdr, cliCode, cliBody)
+//@   ensures wr.headerWritten && wr.status == (old(wr.headerWritten) ? old(wr.status) : 200)
+//@   ensures bufContent(emb(wr, body)) == concat(old(bufContent(emb(wr, body))), bytes(b))
+//@   ensures strictInv(wr)
+//@   tag C14
+
+//@ func (*strictResponseWrapper).Header
+//@   requires wr != nil && external(wr.w)
+//@   modifies nothing
+//@   ensures unchanged(cliHdr, cliCode, cliBody)
+//@   ensures result == headerOf(ptr(wr.w))
+//@   tag C14
+
+//@ func (*strictResponseWrapper).statusCode
+//@   requires wr != nil
+//@   modifies nothing
+//@   ensures result == wr.status
+//@   tag C14
+
+//@ func (*strictResponseWrapper).bodyContents
+//@   requires wr != nil
+//@   modifies nothing
+//@   ensures bytes(result) == bufContent(emb(wr, body))
+//@   tag C14
+
+// The client receives exactly the status and body the handler wrote.
+//@ func (*strictResponseWrapper).flushBodyContents
+//@   requires wr != nil && external(wr.w)
+//@   requires strictInv(wr)
+//@   modifies wr.status, wr.headerWritten, cliHdr, cliCode, cliBody
+//@   ensures wr.status == (old(wr.headerWritten) ? old(wr.status) : 200)
+//@   ensures cliHdr == store(old(cliHdr), ptr(wr.w), true)
+//@   ensures !old(cliHdr)[ptr(wr.w)] ==> cliCode == store(old(cliCode), ptr(wr.w), wr.status)
+//@   ensures cliBody == store(old(cliBody), ptr(wr.w), concat(old(cliBody)[ptr(wr.w)], bufContent(emb(wr, body))))
+//@   tag C14
